@@ -51,8 +51,8 @@ deriving Repr, DecidableEq
 /-- `sys.get_int_max_str_digits()` (CPython default) -/
 def intMaxStrDigits : Nat := 4300
 
-/-- the `try:` block for an argument with `int(abbrev_cidr) = i`; `mayBeHuge` = the argument is
-    an int (a finite float never has more than 309 digits) -/
+/-- the `try:` block for an argument with `int(abbrev_cidr) = i` (the digit-limit branch can only
+    be reached by an int: the truncation of a finite float has at most 309 digits) -/
 def abbrevOfInt (i : Int) : R AbbrevRes :=
   match classfulPrefix i with
   | some p => .ok (.text (showInt i ++ ".0.0.0/".toList ++ dec p))
